@@ -7,10 +7,7 @@
         implementation line: "conc obs | obs | ..." ; every obs must be a quiescent observation reachable
         under SOME interleaving of the model's atomic steps:
           variant defective: reachable in the Defective machine (today's algorithm)
-          variant repaired : reachable in the Repaired machine, or reachable in the Defective machine AND
-                             accepted by the property monitor (no orphan, no alias, |series|<=cap,
-                             seriesCount=|series|, nothing lost) — either algorithm is fine as long as the
-                             outcome satisfies the property.
+          variant repaired : reachable in the Repaired machine (the algorithm /repo HEAD implements) and nothing else.
         admissible observations are echoed, others are printed as INADMISSIBLE(obs). *)
 
 let z_of_int (i : int) : z = if i = 0 then Z0 else if i > 0 then Zpos (pos_of_int i) else Zneg (pos_of_int (-i))
@@ -233,14 +230,16 @@ let run_conc (f : string list) (impl : string) (variant : string) : string =
     let setup = parse_prog setup and progs = List.map parse_prog progs in
     let limit = 3_000_000 in
     (try
-      let rd = reachable (mk_cfg kind capi (int_of_string nl) [z_of_int 1; z_of_int 5] "defective") setup progs limit in
+      let rd = if variant = "defective" then reachable (mk_cfg kind capi (int_of_string nl) [z_of_int 1; z_of_int 5] "defective") setup progs limit
+        else Hashtbl.create 1 in
       let ok = if variant = "defective" then (fun o -> Hashtbl.mem rd o)
         else begin
           let rr = reachable (mk_cfg kind capi (int_of_string nl) [z_of_int 1; z_of_int 5] "repaired") setup progs limit in
           let capeff = if capi = 0 then 10000 else capi in
           (* sanity: the theorems say the repaired machine never produces a monitor violation *)
           Hashtbl.iter (fun o () -> if monitor capeff o <> [] then failwith ("MODELBUG repaired machine violates monitor: " ^ o)) rr;
-          (fun o -> Hashtbl.mem rr o || (Hashtbl.mem rd o && monitor capeff o = []))
+          (* /repo implements the repaired algorithm: ONLY its reachable observations are admissible *)
+          (fun o -> Hashtbl.mem rr o)
         end in
       let body = if String.length impl >= 5 && String.sub impl 0 5 = "conc " then String.sub impl 5 (String.length impl - 5) else impl in
       let obs = List.filter (fun s -> s <> "") (List.map String.trim (Str.split (Str.regexp_string " | ") body)) in
@@ -320,7 +319,7 @@ let run_reg (f : string list) (impl : string) (variant : string) : string =
                 let progs = List.map2 (fun (_, _, _, _, p) r -> match r with RROk _ -> p | _ -> []) mine res in
                 let mk v = mk_cfg (kind_tok o.rb_kind) capi (int_of_nat o.rb_nl) [z_of_int 1; z_of_int 5] v in
                 let rr = reachable_memo (mk "repaired") progs limit in
-                let rd = reachable_memo (mk "defective") progs limit in
+                let rd = if variant = "defective" then reachable_memo (mk "defective") progs limit else Hashtbl.create 1 in
                 let add o' =
                   (* o' = m=..;c=..;d=..;u=..;s=..;lost=..;S=-;T0=..;T1=.. with local thread numbers *)
                   let fields = String.split_on_char ';' o' in
@@ -335,7 +334,7 @@ let run_reg (f : string list) (impl : string) (variant : string) : string =
                       tfield gi r (try List.assoc li tvals with Not_found -> "")) (List.combine mine res) in
                   Hashtbl.replace set (name ^ ":reg=1,1;" ^ String.concat ";" (head @ ts)) () in
                 Hashtbl.iter (fun o' () -> add o') rr;
-                Hashtbl.iter (fun o' () -> if variant = "defective" || monitor capeff o' = [] then add o') rd) outs;
+                if variant = "defective" then Hashtbl.iter (fun o' () -> add o') rd) outs;
           set) names in
       let body = if String.length impl >= 4 && String.sub impl 0 4 = "reg " then String.sub impl 4 (String.length impl - 4) else impl in
       let obs = List.filter (fun s -> s <> "") (List.map String.trim (split_on_str " | " body)) in
